@@ -13,11 +13,13 @@ import numpy as np
 import z3
 
 
-class Unsupported(Exception):
-    """A construct the symbolic values / shims cannot carry.  Makes the obligation *undecided*."""
+class Unsupported(BaseException):
+    """A construct the symbolic values / shims cannot carry.  Makes the obligation *undecided*.
+    (BaseException: a blanket `except Exception` in the code under test - e.g. the fault handling of the Wasserstein solvers - must
+    not swallow an engine limitation and turn it into a 'fault path'.)"""
 
 
-class PathBudget(Exception):
+class PathBudget(BaseException):
     pass
 
 
@@ -279,9 +281,87 @@ def cast_scalar(e, t):
     raise Unsupported(f"cast of symbolic value to {t}")
 
 
+def _sign(t, pos):
+    """Sound sign analysis of an arithmetic term given the set `pos` of variable names known to be > 0:
+    '+' (> 0), '-' (< 0), '0' (== 0) or None (unknown)."""
+    if z3.is_int_value(t) or z3.is_rational_value(t):
+        v = t.as_long() if z3.is_int_value(t) else t.numerator_as_long()
+        return "+" if v > 0 else ("-" if v < 0 else "0")
+    if z3.is_const(t) and t.decl().kind() == z3.Z3_OP_UNINTERPRETED:
+        return "+" if t.decl().name() in pos else None
+    k = t.decl().kind()
+    ch = t.children()
+    if k == z3.Z3_OP_TO_REAL:
+        return _sign(ch[0], pos)
+    if k == z3.Z3_OP_UMINUS:
+        r = _sign(ch[0], pos)
+        return {"+": "-", "-": "+", "0": "0"}.get(r)
+    if k in (z3.Z3_OP_MUL, z3.Z3_OP_DIV):
+        neg = False
+        for i, c in enumerate(ch):
+            r = _sign(c, pos)
+            if r is None:
+                return None
+            if r == "0":
+                return "0" if (k == z3.Z3_OP_MUL or i == 0) else None
+            neg ^= r == "-"
+        return "-" if neg else "+"
+    if k == z3.Z3_OP_ADD:
+        seen = set()
+        for c in ch:
+            r = _sign(c, pos)
+            if r is None:
+                return None
+            if r != "0":
+                seen.add(r)
+        if not seen:
+            return "0"
+        return seen.pop() if len(seen) == 1 else None
+    if k == z3.Z3_OP_SUB and len(ch) == 2:
+        a, b = _sign(ch[0], pos), _sign(ch[1], pos)
+        if a is None or b is None:
+            return None
+        if b == "0":
+            return a
+        fb = {"+": "-", "-": "+"}[b]
+        if a == "0" or a == fb:
+            return fb
+        return None
+    return None
+
+
+def quick_decision(cond, pos):
+    """Decide cond (a simplified z3 Boolean) by sign analysis alone; None if it does not apply."""
+    neg = False
+    while z3.is_not(cond):
+        cond, neg = cond.children()[0], not neg
+    k = cond.decl().kind()
+    if k not in (z3.Z3_OP_EQ, z3.Z3_OP_DISTINCT, z3.Z3_OP_LE, z3.Z3_OP_GE, z3.Z3_OP_LT, z3.Z3_OP_GT) or len(cond.children()) != 2:
+        return None
+    a, b = cond.children()
+    if z3.is_bool(a):
+        return None
+    sa, sb = _sign(a, pos), _sign(b, pos)
+    if sa is None or sb is None:
+        return None
+    # only comparisons against zero, or of terms with different strict signs, are resolved
+    if sb == "0":
+        s = sa
+    elif sa == "0":
+        s = {"+": "-", "-": "+", "0": "0"}[sb]
+    elif sa != sb:
+        s = sa          # positive vs negative (or the reverse): the sign of a - b is the sign of a
+    else:
+        return None
+    val = {z3.Z3_OP_EQ: s == "0", z3.Z3_OP_DISTINCT: s != "0", z3.Z3_OP_LE: s in "-0", z3.Z3_OP_GE: s in "+0",
+           z3.Z3_OP_LT: s == "-", z3.Z3_OP_GT: s == "+"}[k]
+    return (not val) if neg else val
+
+
 class PathCtx:
     """One run of the function under a decision list."""
     cur: "PathCtx | None" = None
+    decide_timeout_ms = 20000       # per feasibility query of a branch; `unknown` counts as feasible (sound: more paths, never fewer)
 
     def __init__(self, decisions, hyps=(), max_decisions=400):
         self.decisions = list(decisions)
@@ -290,11 +370,13 @@ class PathCtx:
         self.pc = []
         self.side = []          # side constraints introduced by shims (sqrt etc.)
         self.solver = z3.Solver()
-        self.solver.set("timeout", 20000)
+        self.solver.set("timeout", PathCtx.decide_timeout_ms)
         for h in hyps:
             self.solver.add(h)
         self.max_decisions = max_decisions
         self.fresh = 0
+        self.known_pos = set()     # names of variables asserted > 0 (feeds the sign analysis that spares solver calls)
+        self.quick = 0
 
     def add(self, c):
         self.pc.append(c)
@@ -311,6 +393,10 @@ class PathCtx:
             return True
         if z3.is_false(simp):
             return False
+        q = quick_decision(simp, self.known_pos)
+        if q is not None:
+            self.quick += 1
+            return q               # implied by the sign hypotheses: no fork, nothing to add to the path condition
         if self.pos < len(self.decisions):
             d = self.decisions[self.pos]
         else:
@@ -397,9 +483,9 @@ class SymBool:
     def astype(s, t, *a, **k): return cast_scalar(s, t)
 
 
-def sym_sqrt(x):
+def sym_sqrt(x, nonneg=False):
     """sqrt over the reals: fresh r with r >= 0 and r*r == x (side constraint on the path); x >= 0 is
-    recorded as a side *obligation* (domain of sqrt)."""
+    recorded as a side *obligation* (domain of sqrt) unless the caller built x as a sum of squares (nonneg=True)."""
     if not isinstance(x, Sym):
         return math.sqrt(x)
     c = _const_value(x.t)
@@ -413,7 +499,8 @@ def sym_sqrt(x):
         raise Unsupported("sqrt of symbolic value outside path context")
     r = ctx.fresh_real("sqrt")
     xt = _real(x.t)
-    ctx.side.append(("sqrt-domain", xt >= 0))
+    if not nonneg:
+        ctx.side.append(("sqrt-domain", xt >= 0))
     ctx.add(z3.And(r >= 0, r * r == xt))
     return Sym(r)
 
